@@ -941,8 +941,13 @@ func (node *Node) check(ctx context.Context) error {
 		}
 
 		if node.queueOutgoing(headerRequest) {
-			logger.Verbose(ctx, "Requesting headers after : %s",
-				headerRequest.BlockLocatorHashes[0])
+			if len(headerRequest.BlockLocatorHashes) > 0 {
+				logger.Verbose(ctx, "Requesting headers after : %s",
+					headerRequest.BlockLocatorHashes[0])
+			} else {
+				// The locator is empty when the chain is at height zero.
+				logger.Verbose(ctx, "Requesting headers from genesis")
+			}
 			node.state.MarkHeadersRequested()
 		}
 	}
